@@ -24,20 +24,22 @@ Definition T0 : Z := 946684800000000000.
 (* the statement of wait_ge_retry_after fails for the unrepaired arithmetic: a fresh client, a 503
    with Retry-After: 9223372037, and the next POST is scheduled at the very instant of the answer *)
 Theorem wait_ge_retry_after_unpatched_refuted :
-  exists c evs t b,
+  exists c evs t b n p,
     mult_ok b
     /\ Forall (fun x => 0 <= r_j x < max_jitter_ns /\ r_at x <= r_resp x) (o_trace (run_call conv_unpatched c t b evs))
-    /\ exists x n p, In x (o_trace (run_call conv_unpatched c t b evs))
-         /\ r_out x = OResp 503 (RASeconds n) p
-         /\ r_next x < r_resp x + Z.min (n * 1000000000) max_i64
-         /\ r_next x = r_resp x.
+    /\ match o_trace (run_call conv_unpatched c t b evs) with
+       | x :: _ => r_out x = OResp 503 (RASeconds n) p
+                   /\ r_next x < r_resp x + Z.min (n * 1000000000) max_i64
+                   /\ r_next x = r_resp x
+       | [] => False
+       end.
 Proof.
   exists (mkCtx None KDeadline),
          [mkEv 0 (OResp 503 (RASeconds 9223372037) false) 0 (JGiven 0); mkEv 0 (OResp 200 RANone true) 1 (JGiven 0)],
-         T0, fresh_backoff.
+         T0, fresh_backoff, 9223372037, false.
   split; [exact mult_ok_fresh|]. split.
   - vm_compute. repeat constructor; discriminate.
-  - eexists. exists 9223372037, false. split; [left; reflexivity|]. vm_compute. repeat split.
+  - vm_compute. repeat split.
 Qed.
 Print Assumptions wait_ge_retry_after_unpatched_refuted.
 
